@@ -180,8 +180,13 @@ func (g *qgen) keyExpr(t *table, qual string) (string, class, coll, string) {
 		case 2:
 			return name + " IS NULL", clsNum, collNone, "key:isnull"
 		default:
-			// an explicit collation overrides the column's
-			c := coll(g.intn(int(collBin), int(collGen), "collate"))
+			// an explicit collation overrides the column's (general_ci only where no value has a
+			// trailing space: see cmpStr)
+			hi := collAI
+			if col.k == kStrGen {
+				hi = collGen
+			}
+			c := coll(g.intn(int(collBin), int(hi), "collate"))
 			return name + " COLLATE " + collName[c], clsStr, c, "key:collate"
 		}
 	default: // DATE
